@@ -13,7 +13,7 @@ def run(tier, seed):
     chk = vlib.Check("C09", tier, seed)
     os.environ["VM_FORCE_RNG"] = "1"      # every decision of the model comes from Random()/RandomRange()/Expent()/Normal()/Gamma()/Zipf()
     try:
-        models, per = (14, 8) if tier == "quick" else (100, 16)
+        models, per = (14, 8) if tier == "quick" else (60, 16)
         cases = sim_common.make_cases("C09", tier, seed, models * per, variants=(0,), fp_levels=(1, 10, 2, 3, 10), sizes=(0, 0, 1), same_model_group=per,
                                       threads=[1, 2, 3, 4, 8, 2, 12, 5, 16, 4], flavours=("asan",) if tier == "quick" else ("asan", "asan-ndebug"))
         # repetition: the last case of each group repeats the configuration of the first
